@@ -6,6 +6,7 @@ import Driver.ArithDrv
 import Driver.CnipDrv
 import Driver.PositionsDrv
 import Driver.TreeDrv
+import Driver.ProtocolDrv
 /-! `psymodel <component>`: reads one case per line on stdin, answers one line per case. -/
 
 partial def loop (h : IO.FS.Stream) (out : IO.FS.Stream) (f : String → String) : IO Unit := do
@@ -26,4 +27,5 @@ def main (args : List String) : IO UInt32 := do
   | ["cnip"] => loop stdin stdout Driver.CnipDrv.handle; return 0
   | ["positions"] => loop stdin stdout Driver.PositionsDrv.handle; return 0
   | ["tree"] => loop stdin stdout Driver.TreeDrv.handle; return 0
+  | ["protocol"] => loop stdin stdout Driver.ProtocolDrv.handle; return 0
   | _ => IO.eprintln "usage: psymodel <component>"; return 2
